@@ -173,3 +173,8 @@ def run(ctx, model):
     ctx.parallel(cfgs, lambda c, cfg: e2e.compare(c, model, "R-E2E", *cfg), min_items=2)
     ctx.floor("R-E2E", ctx.rule_counts.get("R-E2E", 0), len(cfgs), "end-to-end comparisons")
 
+    # ---------------- R-PROCESS: the same configurations in one long-lived process, backwards and forwards
+    pcfgs = cfgs + [("Numeral", [16, 1, 4]), ("Integer", [0, 255])]
+    e2e.process_order(ctx, model, "R-PROCESS", pcfgs)
+    ctx.floor("R-PROCESS", ctx.rule_counts.get("R-PROCESS", 0), len(pcfgs), "configurations replayed in one process")
+
